@@ -1,10 +1,16 @@
 use crate::mon::Ctx;
 
 pub mod c01;
+pub mod c03;
+pub mod c04;
+pub mod c13;
 
 pub fn run(ctx: &mut Ctx) -> bool {
     match ctx.prop.as_str() {
         "C01" => c01::run(ctx),
+        "C03" => c03::run(ctx),
+        "C04" => c04::run(ctx),
+        "C13" => c13::run(ctx),
         _ => return false,
     }
     true
